@@ -329,6 +329,39 @@ theorem strict_only_undefined_error (cfg : Cfg) (obj : Val) (ks : List Val) (e :
       · cases h
       · exact ih _ h
 
+
+theorem ctxGet_total (cfg : Cfg) (w : View) (h : cfg.strictUndef = false) (r : Val) (vs : List Val) :
+    ∃ v, ctxGet cfg w r vs = .ok v := ⟨_, path_resolution cfg w r vs h⟩
+
+mutual
+theorem evalSeg_total (cfg : Cfg) (w : View) (h : cfg.strictUndef = false) : ∀ s : Seg, ∃ v, evalSeg cfg w s = .ok v
+  | .name s => ⟨_, rfl⟩
+  | .idx i => ⟨_, rfl⟩
+  | .sub hd tl => by
+    obtain ⟨r, hr⟩ := evalSeg_total cfg w h hd
+    obtain ⟨vs, hvs⟩ := evalSegs_total cfg w h tl
+    obtain ⟨v, hv⟩ := ctxGet_total cfg w h r vs
+    exact ⟨v, by simp only [evalSeg, hr, hvs, hv]⟩
+theorem evalSegs_total (cfg : Cfg) (w : View) (h : cfg.strictUndef = false) : ∀ ss : List Seg, ∃ vs, evalSegs cfg w ss = .ok vs
+  | [] => ⟨_, rfl⟩
+  | s :: ss => by
+    obtain ⟨v, hv⟩ := evalSeg_total cfg w h s
+    obtain ⟨vs, hvs⟩ := evalSegs_total cfg w h ss
+    exact ⟨v :: vs, by simp only [evalSegs, hv, hvs]⟩
+end
+
+/-- **Sentence 3 (missing ↦ the undefined value, never a failure).**  With the default undefined type no expression —
+whatever paths nest inside it — fails to evaluate. -/
+theorem eval_total_default (cfg : Cfg) (w : View) (h : cfg.strictUndef = false) (e : Expr) :
+    ∃ v, evalExpr cfg w e = .ok v := by
+  cases e with
+  | lit v => exact ⟨v, rfl⟩
+  | path hd tl =>
+    obtain ⟨r, hr⟩ := evalSeg_total cfg w h hd
+    obtain ⟨vs, hvs⟩ := evalSegs_total cfg w h tl
+    obtain ⟨v, hv⟩ := ctxGet_total cfg w h r vs
+    exact ⟨v, by simp only [evalExpr, evalPath, hr, hvs, hv]⟩
+
 /-! ## Non-vacuity -/
 
 def E0 : Env := { cfg := { strictUndef := false, stringSeq := false, stringFL := false }, depth := 30,
